@@ -118,6 +118,27 @@ def gen_case(rng: random.Random, tier: str, bias: str = ''):
                 chooser=list(ch), seed=rng.randrange(1 << 30))
 
 
+def corpus():
+    """fixed cases that always run first (regressions of past misses): a request abandoned while a worker is still on
+    it, a second idle worker (so that the stop sentinel overtakes the late result), the server left at once and entered
+    again; streams abandoned near their start in every stop mode"""
+    F = FOREVER
+    out = []
+    for kind in ('sync', 'async'):
+        for seed in (1, 2, 3):
+            # (timed waits expire early with probability 0.3 per step: the deadline passes while the worker is on it)
+            out.append(dict(kind=kind, cap=2, nworkers=2, nreq=2, followups=1, exit_busy=True, chooser=['random', 0.3], seed=seed,
+                            callers=[dict(kind='call', reqs=[dict(r=0, delay=0, dur=60, fail=False, timeout=0.5, bp=False)]),
+                                     dict(kind='call', reqs=[dict(r=1, delay=0, dur=0, fail=False, timeout=F, bp=False)])]))
+        for mode in ('close', 'throw', 'cancel', 'leave'):
+            items = [dict(r=i, dur=1, fail=False) for i in range(10)]
+            out.append(dict(kind=kind, cap=1, nworkers=1, nreq=10, followups=1, exit_busy=False, chooser=['random', 0.0], seed=7,
+                            callers=[dict(kind='stream', items=items, rexc=True, stop_after=1, stop_mode=mode)]))
+            out.append(dict(kind=kind, cap=2, nworkers=2, nreq=10, followups=1, exit_busy=False, chooser=['sticky', 0.2, 0.0], seed=8,
+                            callers=[dict(kind='stream', items=items, rexc=False, stop_after=2, stop_mode=mode)]))
+    return out
+
+
 def _alive(srv):
     """the gather thread (internal attribute; if it is renamed the monitor is skipped, not crashed)"""
     t = getattr(srv, '_gather_thread', None)
